@@ -217,6 +217,29 @@ fn perturb(x: &Ext, r: &mut Rng) -> Ext {
     }
 }
 
+/// the value as a float of base B, when B^k * q is an integer for some k <= 600
+fn in_base<const B: dashu_int::Word>(q: &BigRational) -> Option<FBig<mode::Zero, B>> {
+    let b = BigInt::from(B);
+    let d = q.denom().clone();
+    let mut scale = BigInt::one();
+    let mut k = 0isize;
+    while !(&scale % &d).is_zero() {
+        if k >= 600 {
+            return None;
+        }
+        scale *= &b;
+        k += 1;
+    }
+    Some(FBig::from_parts(ibig_of_int(&(q.numer() * (&scale / &d))), -k))
+}
+
+fn hash_of<T: NumHash>(x: &T) -> u64 {
+    use std::hash::Hasher;
+    let mut h = std::collections::hash_map::DefaultHasher::new();
+    x.num_hash(&mut h);
+    h.finish()
+}
+
 fn case(m: &mut Mon, r: &mut Rng, _idx: u64) {
     let x = value(m, r);
     let y = match r.below(4) {
@@ -255,6 +278,43 @@ fn case(m: &mut Mon, r: &mut Rng, _idx: u64) {
             }
             Ok(())
         });
+    }
+    // floats of the other bases (powers of two above 2, bases with a repeated prime factor, 36): the generic NumHash /
+    // NumOrd code has base-specific shortcuts. Judged against the rational representation of the same value.
+    if let (Ext::Fin(qx), Ext::Fin(qy)) = (&x, &y) {
+        if qx.denom().bits() < 4000 && qy.denom().bits() < 4000 {
+            m.check("other_bases", "", Some(h ^ 3), &d, || {
+                let (rqx, rqy) = (RBig::from_parts(ibig_of_int(qx.numer()), ubig_of_nat(qx.denom().magnitude())), RBig::from_parts(ibig_of_int(qy.numer()), ubig_of_nat(qy.denom().magnitude())));
+                let h0 = hash_of(&rqx);
+                let mut seen = 0u64;
+                macro_rules! base {
+                    ($B:literal) => {
+                        if let Some(f) = in_base::<$B>(qx) {
+                            seen += 1;
+                            let hf = catch(|| hash_of(&f)).or_else(|p| fail("unexpected_panic", format!("NumHash of a base-{} float {:?}: {}", $B, f.repr(), p)))?;
+                            ensure!(hf == h0, "hash", "base-{} float {:?} and the rational {} are numerically equal but hash differently", $B, f.repr(), rqx);
+                            ensure!(hash_of(f.repr()) == h0, "hash", "base-{} Repr {:?} and the rational {} hash differently", $B, f.repr(), rqx);
+                            ensure!(f.num_partial_cmp(&rqx) == Some(Ordering::Equal) && rqx.num_eq(&f), "order", "base-{} float {:?} does not compare equal to the rational {}", $B, f.repr(), rqx);
+                            let got = f.num_partial_cmp(&rqy);
+                            ensure!(got == want, "order", "base-{} float {:?}.num_partial_cmp({}) = {:?} but the exact values compare {:?}", $B, f.repr(), rqy, got, want);
+                            if let Some(g) = in_base::<$B>(qy) {
+                                ensure!(f.partial_cmp(&g) == want && (f == g) == (want == Some(Ordering::Equal)), "order", "base-{} floats {:?} and {:?} compare {:?}, exact {:?}", $B, f.repr(), g.repr(), f.partial_cmp(&g), want);
+                            }
+                        }
+                    };
+                }
+                base!(4);
+                base!(8);
+                base!(16);
+                base!(32);
+                base!(64);
+                base!(9);
+                base!(36);
+                base!(6);
+                let _ = seen;
+                Ok(())
+            });
+        }
     }
     // AbsOrd between big types
     if let (Ext::Fin(qx), Ext::Fin(qy)) = (&x, &y) {
